@@ -1,4 +1,5 @@
 import PlzVerif.Model.CASFS
+import PlzVerif.Lemmas.Cmd
 /-! Helper lemmas for C29: `findNode` against an inductive description of "where things are in the tree",
     fuel monotonicity of `openAt`, symlink cycles. -/
 namespace PlzVerif.CASFS
@@ -311,5 +312,94 @@ theorem openAt_cycle1 {root : Dir} {p : Str} (h : Hop root p p) : ∀ n, openAt 
   induction n with
   | zero => simp [openAt]
   | succ n ih => rw [openAt_hop h]; exact ih
+
+
+/-! ### valid io/fs names pass through `filepath.Join`/`Clean` unchanged -/
+
+open PlzVerif.Cmd (joinWith cleanStep splitOnChar_ne_nil pathJoin_dot stripPrefix?)
+
+theorem joinWith_cons_cons (c : Char) (w : Str) (ws : List Str) :
+    joinWith ['/'] ((c :: w) :: ws) = c :: joinWith ['/'] (w :: ws) := by
+  cases ws <;> simp [joinWith]
+
+theorem joinWith_splitOnChar : ∀ (s : Str), joinWith ['/'] (splitOnChar '/' s) = s
+  | [] => by simp [splitOnChar, joinWith]
+  | c :: cs => by
+    have ih := joinWith_splitOnChar cs
+    rw [splitOnChar]
+    cases h : splitOnChar '/' cs with
+    | nil => exact absurd h (splitOnChar_ne_nil _ _)
+    | cons w ws =>
+      rw [h] at ih
+      by_cases hc : c = '/'
+      · simp only [hc, ↓reduceIte]
+        show joinWith ['/'] ([] :: w :: ws) = '/' :: cs
+        simp [joinWith, ih]
+      · simp only [hc, ↓reduceIte]
+        rw [joinWith_cons_cons, ih]
+
+theorem foldl_cleanStep_plain (r : Bool) : ∀ (cs : List Str) (stack : List Str), (∀ c ∈ cs, plain c) →
+    cs.foldl (cleanStep r) stack = cs.reverse ++ stack
+  | [], stack, _ => by simp
+  | c :: cs, stack, h => by
+    have hc := h c (by simp)
+    have e : cleanStep r stack c = c :: stack := by
+      unfold cleanStep
+      simp [hc.1, hc.2.1, hc.2.2]
+    simp only [List.foldl_cons, e]
+    rw [foldl_cleanStep_plain r cs (c :: stack) (fun x hx => h x (by simp [hx]))]
+    simp
+
+/-- A name all of whose components are plain is its own `filepath.Clean`. -/
+theorem pathClean_plain (p : Str) (h : ∀ c ∈ splitOnChar '/' p, plain c) : pathClean p = p := by
+  have hne : p ≠ [] := by
+    intro e; subst e
+    have := h [] (by simp [splitOnChar]); exact this.1 rfl
+  have hroot : hasPrefix p ['/'] = false := by
+    cases p with
+    | nil => exact absurd rfl hne
+    | cons c cs =>
+      by_cases hc : c = '/'
+      · subst hc
+        exfalso
+        have : ([] : Str) ∈ splitOnChar '/' ('/' :: cs) := by
+          rw [splitOnChar]
+          cases hs : splitOnChar '/' cs with
+          | nil => exact absurd hs (splitOnChar_ne_nil _ _)
+          | cons w ws => simp
+        exact (h [] this).1 rfl
+      · simp [hasPrefix, stripPrefix?, hc]
+  unfold pathClean
+  simp only [hne, ↓reduceIte, hroot, Bool.false_eq_true]
+  rw [foldl_cleanStep_plain false _ [] h]
+  simp only [List.append_nil, List.reverse_reverse, joinWith_splitOnChar, hne, ↓reduceIte]
+
+/-- For a valid name and the default working directory, `Open`/`Stat` look up exactly the name's components. -/
+theorem comps_join_valid (name : Str) (h : ∀ c ∈ splitOnChar '/' name, plain c) :
+    comps (pathJoin [pathClean [], name]) = splitOnChar '/' name := by
+  have hne : name ≠ [] := by
+    intro e; subst e
+    have := h [] (by simp [splitOnChar]); exact this.1 rfl
+  have hc : pathClean name = name := pathClean_plain name h
+  have hroot : hasPrefix name ['/'] = false := by
+    cases name with
+    | nil => exact absurd rfl hne
+    | cons c cs =>
+      by_cases hcc : c = '/'
+      · subst hcc
+        exfalso
+        have : ([] : Str) ∈ splitOnChar '/' ('/' :: cs) := by
+          rw [splitOnChar]
+          cases hs : splitOnChar '/' cs with
+          | nil => exact absurd hs (splitOnChar_ne_nil _ _)
+          | cons w ws => simp
+        exact (h [] this).1 rfl
+      · simp [hasPrefix, stripPrefix?, hcc]
+  have e1 : pathClean ([] : Str) = ['.'] := by decide
+  rw [e1, pathJoin_dot name hne hroot]
+  have e2 : pathJoin [[], name] = pathClean name := by
+    simp [pathJoin, List.dropWhile, hne, joinWith]
+  rw [e2, hc]
+  rfl
 
 end PlzVerif.CASFS
